@@ -10,6 +10,7 @@ import PyImpSpec.Progress
 import PyImpSpec.Ident
 import PyImpSpec.Tikz
 import PyImpSpec.Registry
+import PyImpSpec.Columns
 
 /-! Line-protocol driver: one request per line (`<model> <op> <args…>`), one canonical reply per line.
 Run with `lake env lean --run Driver/Main.lean`.  The harness sends the same inputs to the real
@@ -280,6 +281,22 @@ def tikzReply (toks : List String) : String :=
     | none => "err ValueError"
   | _ => "bad-op"
 
+
+/-! ### column detection and sweep splitting -/
+
+def keyName : Cols.Key → String
+  | .frequency => "frequency" | .imaginary => "imaginary" | .real => "real" | .magnitude => "magnitude" | .phase => "phase"
+
+def colsReply (cols : List String) : String :=
+  match Cols.detect (cols.map fun c => (if c = "-" then "" else decodeHex c).toList) with
+  | .ok r => "ok " ++ ",".intercalate (r.map fun f => s!"{keyName f.key}:{f.index}:{if f.negative then 1 else 0}")
+  | .error e => "err " ++ e
+
+def sweepsReply (fs : String) : String :=
+  match Cols.splitSweeps (ints fs) with
+  | .ok r => "ok " ++ ",".intercalate (r.map fun l => toString l.length)
+  | .error e => "err " ++ e
+
 def dsStep (st : DState) (args : List String) : DState × String :=
   match args with
   | ["reset"] => ({ st with ds := [] }, "ok")
@@ -438,6 +455,8 @@ def step (st : DState) (line : String) : DState × String :=
   | ["fprog", m, w] => (st, s!"ok {Prog.fitTotal m.toNat! w.toNat!} {Prog.fitIncrements m.toNat! w.toNat!}")
   | "tikz" :: toks => (st, tikzReply toks)
   | "ident" :: toks => (st, identReply toks)
+  | "cols" :: cols => (st, colsReply cols)
+  | ["sweeps", fs] => (st, sweepsReply fs)
   | ["sel", keys] => (st, selReply keys)
   | "tlm" :: which :: a :: b :: c :: d :: e :: binds => (st, tlmReply which [a, b, c, d, e] binds)
   | "kerc" :: name :: binds => (st, kercReply name binds)
